@@ -147,6 +147,7 @@ def prepare_tree(slot, real_zeroize=False, replay=False):
         raise InfraError("workspace manifest already has a [patch] table")
     man += '\n[patch.crates-io]\nkestrel-crypto = { path = "src/crypto" }\n'
     man += 'ct-codecs = { path = "%s" }\n' % os.path.join(VERIF, "harness", "env", "ct-codecs-kani")
+    man += 'anyhow = { path = "%s" }\n' % os.path.join(VERIF, "harness", "env", "anyhow-kani")
     if not real_zeroize:
         man += 'zeroize = { path = "%s" }\n' % os.path.join(VERIF, "harness", "env", "zeroize-kani")
     with open(ws, "w") as f:
@@ -320,7 +321,7 @@ def parse_playback(out):
     """Extract concrete playback tests printed by Kani: list of {check, vals:[bytes...]}"""
     tests = []
     for blk in re.split(r"Concrete playback unit test for `", out)[1:]:
-        chk = re.search(r"/// Check for `(\w+)`: \"(.*?)\"", blk)
+        chk = re.search(r"/// Check for `(\w+)`: \"(.*)\"\s*$", blk, re.M)
         body = blk.split("let concrete_vals", 1)
         if len(body) < 2:
             continue
